@@ -443,8 +443,9 @@ pub fn run(tier: Tier) -> CheckResult {
                 if h.len() == 3 && !(foreign.is_empty() || foreign.len() == FOREIGN.len()) {
                     continue;
                 }
-                // quick: length-2 histories only for the empty set, the full set and singletons
-                if tier == Tier::Quick && h.len() == 2 && foreign.len() == 2 {
+                // quick: length-2 histories only for the empty set, the full set and singletons;
+                // thorough: also for pairs of the names closest to the reserved ones
+                if h.len() == 2 && foreign.len() == 2 && (tier == Tier::Quick || !foreign.iter().all(|f| NEAR.contains(&f.as_str()))) {
                     continue;
                 }
                 for zod in [false, true] {
